@@ -62,6 +62,7 @@ RULES = [
  ('showing the first cell of a range gives 0', 'C01', 'stale-value (a formula =A1:C1 over an empty first cell had the value None and blocked the reset)'),
  ('first cell of an array formula over a number', 'C05', 'range-from-array-formula-corner-over-other-cells'),
  ('range address follows set_value in iterative', 'C06', 'differs-after-set_value/input-or-range (evaluate of a range address stale in iterative mode)'),
+ ('used area is a single cell can be resolved', 'C05', 'unbounded-range-clipped-to-a-single-cell (1x1 used area: AssertionError)'),
  ('an array and an error value', 'C13', 'array-formula-member-not-pointwise/array-with-error-valued-scalar'),
 ]
 
